@@ -34,6 +34,9 @@ type Options struct {
 	StopOnViol bool
 	Deadline   time.Time
 	sampleMin  *int64
+	// BoundIsViolation: a path that exhausts its budget is a candidate
+	// non-termination (C16); it is recorded with its model for native replay.
+	BoundIsViolation bool
 }
 
 type World struct {
@@ -306,7 +309,7 @@ func (w *World) Explore(fn *ssa.Function, opt Options) *HarnessResult {
 					res.PathLimit = true
 					stop = true
 				}
-				if opt.Verbose && res.Paths%500 == 0 {
+				if opt.Verbose && res.Paths%50000 == 0 {
 					fmt.Fprintf(os.Stderr, "  %s: %d paths, queue %d\n", fn.Name(), res.Paths, len(queue))
 				}
 				mu.Unlock()
@@ -363,6 +366,9 @@ func (w *World) runPath(wk *worker, fn *ssa.Function, prefix []int, opt Options)
 			ps.status, ps.statusMsg = p.kind, p.msg
 			if p.kind == "done" {
 				ps.status = "ok"
+			}
+			if p.kind == "bound" && opt.BoundIsViolation {
+				ps.recordViolation("bound", p.msg, ps.currentModel(), nil)
 			}
 		case exitPanic:
 			ps.status, ps.statusMsg = "exit", fmt.Sprintf("os.Exit(%d) outside verifRunMain", int(p))
